@@ -24,7 +24,7 @@ class C04(PropBase):
                     yield dict(directed=directed, removal=True, hist=h, family='int', functional=(i % 2 == 0))
 
     def n_random(self, tier):
-        return 1500 if tier == 'quick' else 30000
+        return 1500 if tier == 'quick' else 150000
 
     def random_cases(self, rnd, n):
         for _ in range(n):
